@@ -1020,3 +1020,53 @@ def numpy_contract_pack(ctx, R, rule: str, funcs, what: str):
                     msg=f"{fi.short}: `{ast.unparse(node)[:70]}`: {why} -- {what}", key=f"contract:eigh-rows:{fi.short}")
     R.check(rule, "numpy / Python construct contracts hold in the property's functions", True, None, None, key="contract-scan")
     R.analysed[f"{rule}:functions scanned for construct contracts"] = n
+
+
+
+def own_sum_normalisation(ctx, fi, stmt: ast.stmt, node, vec_name: Optional[str] = None):
+    """The one reading of "this statement normalises a weight vector by its own sum", used by every rule that needs it
+    (C12.e, C15.d, C20.f, C20.e).  `stmt` is `T /= E`, `T = <expr>`.  Locals are resolved first (`total = np.sum(w)`),
+    then the power-sum algebra decides.  Returns (True | False | None, computed form, vector name)."""
+    from .algebra import normalised_by_own_sum
+    from .dataflow import Resolver
+
+    if isinstance(stmt, ast.AugAssign) and isinstance(stmt.target, ast.Name):
+        if not isinstance(stmt.op, (ast.Div, ast.Mult)):
+            return None, None, None
+        # locals of the divisor are written out, the vector itself is kept as the base vector
+        rhs = Resolver(fi.node).resolve(stmt.value, node, bound={stmt.target.id}) if node is not None else stmt.value
+        expr = ast.BinOp(left=ast.Name(id=stmt.target.id, ctx=ast.Load()), op=stmt.op, right=rhs)
+        vec = stmt.target.id
+    elif isinstance(stmt, ast.Assign) and len(stmt.targets) == 1 and isinstance(stmt.targets[0], ast.Name):
+        vec = vec_name
+        if vec is None:
+            # the vector being normalised: the one array name the statement reads as written
+            own = [x.id for x in ast.walk(stmt.value) if isinstance(x, ast.Name) and isinstance(x.ctx, ast.Load)]
+            cand = [x for x in dict.fromkeys(own) if x not in ("np", "numpy", "math", "len", "sum", "float", "None", "True", "False")]
+            local_scalars = set()
+            if node is not None:
+                from .dataflow import flow_of
+                fl = flow_of(fi.node)
+                for x in cand:
+                    ds = fl.reaching(node, x)
+                    if len(ds) == 1 and ds[0].kind == "assign" and isinstance(ds[0].value, ast.Call) and not ds[0].path and x != stmt.targets[0].id:
+                        # a local bound to a reduction (total = np.sum(w)) is part of the divisor, not the vector
+                        if any(isinstance(y, ast.Name) and y.id in cand and y.id != x for y in ast.walk(ds[0].value)):
+                            local_scalars.add(x)
+            cand = [x for x in cand if x not in local_scalars]
+            if len(cand) == 1:
+                vec = cand[0]
+        expr = Resolver(fi.node).resolve(stmt.value, node, bound={vec} if vec else None) if node is not None else stmt.value
+        if vec is None:
+            names = []
+            for x in ast.walk(expr):
+                if isinstance(x, ast.Name) and isinstance(x.ctx, ast.Load) and x.id not in names and x.id not in ("np", "numpy", "math", "len", "sum", "float", "None", "True", "False"):
+                    names.append(x.id)
+            if len(names) != 1:
+                return None, None, None
+            vec = names[0]
+    else:
+        return None, None, None
+    ast.fix_missing_locations(expr)
+    ok, form = normalised_by_own_sum(lambda c: ctx.res.external_name(fi, c), expr, vec)
+    return ok, form, vec
